@@ -171,6 +171,7 @@ func (x *Exec) runTop(fn *ssa.Function, spec *FuncSpec) {
 			for k, v := range fr.params {
 				env.vars[k] = v
 			}
+			env.assumeMode = true
 			t, err := env.evalBool(r.E)
 			if err != nil {
 				x.genError(fr, "requires", r.Label, err, fn.Pos())
